@@ -5,6 +5,7 @@
 # Prints the check's output; exit status: 0 = mutant CAUGHT (a VIOLATION line was printed), 1 = missed, 2 = build/harness error.
 set -u
 ID=$(echo "$1" | tr a-z A-Z); lc=$(echo "$ID" | tr A-Z a-z); shift
+if [ "$1" != "--sed" ]; then PATCHFILE=$(readlink -f "$1"); fi
 SCR=$(mktemp -d /var/tmp/verif-scratch/mut-$lc-XXXXXX)
 trap 'rm -rf "$SCR"' EXIT
 mkdir -p "$SCR/repo"; cp -r /repo/utils "$SCR/repo/utils"
@@ -12,7 +13,7 @@ if [ "$1" = "--sed" ]; then
   sed -i -E "$2" "$SCR/repo/$3" || exit 2
   if cmp -s "$SCR/repo/$3" "/repo/$3"; then echo "mutation did not change $3"; exit 2; fi
 else
-  (cd "$SCR/repo" && patch -p1 --no-backup-if-mismatch < "$(readlink -f "$1")") || exit 2
+  (cd "$SCR/repo" && patch -p1 --no-backup-if-mismatch < "$PATCHFILE") || exit 2
 fi
 cd /verif
 sed "s#=> /repo/utils#=> $SCR/repo/utils#" go.mod > "$SCR/go.mod"; cp go.sum "$SCR/go.sum"
